@@ -132,6 +132,7 @@ type Task struct {
 	notBefore time.Duration
 	holding   int
 	quarantined bool
+	prio      int  // PCT priority (0 = not assigned yet)
 	idleSeq   int64 // value of exitSeq when an exit-sensitive idle wait began (-1: not sensitive)
 }
 
@@ -156,6 +157,9 @@ type Sim struct {
 	step  int
 	start time.Time
 	stick int
+	strategy string // sticky | pct
+	pctChange []int // PCT: steps at which the running task's priority drops below everybody's
+	pctLow    int
 	dead  atomic.Bool
 
 	res      *Result
@@ -290,7 +294,18 @@ func Execute(t *testing.T, tape *Tape, opts Options, scenario func(s *Sim)) (res
 		s.start = time.Now()
 		s.wake = make(chan struct{}, 1)
 		s.Net = newNet(s)
-		s.stick = []int{50, 80, 95, 99}[tape.Draw(4)]
+		// scheduling strategy of this run (swarm): sticky random walk with one of four stickiness
+		// levels (0..3), or PCT-style priorities with 1-3 change points (4..5)
+		switch k := tape.Draw(6); {
+		case k < 4:
+			s.strategy = "sticky"
+			s.stick = []int{99, 95, 80, 50}[k]
+		default:
+			s.strategy = "pct"
+			for n := 1 + tape.Draw(3); n > 0; n-- {
+				s.pctChange = append(s.pctChange, 1+tape.Draw(600))
+			}
+		}
 		seedRandom(tape)
 		s.Go("root", func() {
 			defer func() { s.mu.Lock(); s.rootDone = true; s.mu.Unlock() }()
@@ -757,7 +772,34 @@ func (s *Sim) schedule() {
 		}
 		// choose
 		idx := 0
-		if len(en) > 1 {
+		if s.strategy == "pct" {
+			// PCT: every task gets a random priority when first seen; the enabled task with the highest
+			// priority runs; at the change points the task about to run is demoted below everybody.
+			for _, t := range en {
+				if t.prio == 0 {
+					t.prio = 1000 + s.Tape.Draw(1<<20)
+				}
+			}
+			best := 0
+			for i, t := range en {
+				if t.prio > en[best].prio {
+					best = i
+				}
+			}
+			for _, cp := range s.pctChange {
+				if cp == s.step+1 && len(en) > 1 {
+					s.pctLow++
+					en[best].prio = 1000 - s.pctLow
+					best = 0
+					for i, t := range en {
+						if t.prio > en[best].prio {
+							best = i
+						}
+					}
+				}
+			}
+			idx = best
+		} else if len(en) > 1 {
 			// put the task that ran last first: index 0 = no context switch
 			for i, t := range en {
 				if t == s.last {
